@@ -35,7 +35,8 @@ Flags(c, a, fb) == [ctor |-> c, abs |-> a, hashfn |-> TRUE, fb |-> fb]
 Configs == {Flags("customhash", FALSE, FALSE)} \cup {Flags("custom", a, fb) : a \in BOOLEAN, fb \in BOOLEAN}
 
 Key(k, h) == [k |-> k, h |-> h, name |-> ""]
-Keys(n) == {Key("empty", FakeEmpty)} \cup {Key("h", h) : h \in HSmall(n)}
+Keys(n) == {Key(e, FakeEmpty) : e \in EmptyKinds} \cup {Key("h", h) : h \in HSmall(n)}
+Bytes(key) == IF key.k \in EmptyKinds THEN "none" ELSE ToString(key.h)
 Owner(i) == IF Shared THEN 0 ELSE i          \* which hasher instance i uses
 None == [busy |-> FALSE, key |-> Key("h", 0), n |-> 1]
 
@@ -52,7 +53,7 @@ Begin(i, key, n) ==
   /\ ~pend[i].busy
   /\ Started < MaxCalls
   \* the harness holds a call inside Write by its key bytes: overlapping calls carry different keys
-  /\ \A j \in Insts : pend[j].busy => pend[j].key # key
+  /\ \A j \in Insts : pend[j].busy => Bytes(pend[j].key) # Bytes(key)
   /\ pend' = [pend EXCEPT ![i] = [busy |-> TRUE, key |-> key, n |-> n]]
   /\ hbuf' = [hbuf EXCEPT ![Owner(i)] = <<key.h>>]                  \* Reset(); Write(key)
   /\ steps' = Append(steps, [ph |-> "begin", inst |-> i, key |-> key, n |-> n])
